@@ -77,11 +77,14 @@ func (s *zzC06) op(op int, nested bool) {
 	case 3: // handler of A runs and returns (normal / error / panic): releases the user reference
 		zzverif.Assume(!s.aHandler && !s.aFreed && !nested)
 		s.aHandler = true
-		switch zzverif.Choice(3) {
+		switch zzverif.Choice(4) {
 		case 1:
 			s.e.handler.ret = status.Status{Code: status.CodeError}
 		case 2:
 			s.e.handler.panic = true
+		case 3: // the handler frees the channel itself and then returns: the library's own release
+			// on the exit path must stay contained (logged), whatever it does
+			s.e.handler.free = true
 		}
 		zzverif.Assert(s.e.workers.runNext(s.a), "handler-runs")
 		s.aFreed = true
